@@ -202,6 +202,8 @@ pub fn run_case<V: VringT<GM> + Clone + Send + Sync + 'static>(case: &Value, tra
                 // the backend adds a used element and signals, on the next dispatch of ring q
                 let idx = step["idx"].as_u64().unwrap_or(1) as u16;
                 let len = step["len"].as_u64().unwrap_or(16) as u32;
+                let ou0 = from_limbs(&step["oused"]);
+                let before_files: Vec<Vec<u8>> = pool.iter().map(|r| if ou0 + 12 <= r.size { file_read_at(&r.file, r.off + ou0, 12) } else { vec![] }).collect();
                 rig.tb.script.lock().unwrap().use_ring = Some((q, idx, len));
                 for c in rig.calls[q].iter() {
                     let _ = c.read();
@@ -213,10 +215,10 @@ pub fn run_case<V: VringT<GM> + Clone + Send + Sync + 'static>(case: &Value, tra
                 rig.tb.script.lock().unwrap().use_ring = None;
                 let counts: Vec<u64> = rig.calls[q].iter().map(eventfd_count).collect();
                 // used ring bytes as seen through every pool file at the given offset
-                let rid = step["rid"].as_u64().unwrap_or(0) as usize;
                 let ou = from_limbs(&step["oused"]);
-                let bytes = if rid < pool.len() { file_read_at(&pool[rid].file, pool[rid].off + ou, 4 + 8 * 4) } else { vec![] };
-                out = json!({"call_counts": counts, "used_bytes": bytes_json(&bytes), "idx": idx, "len": len});
+                let by_file: Vec<Value> = pool.iter().map(|r| if ou + 12 <= r.size { bytes_json(&file_read_at(&r.file, r.off + ou, 12)) } else { json!([]) }).collect();
+                let changed: Vec<usize> = pool.iter().enumerate().filter(|(i, r)| ou + 12 <= r.size && file_read_at(&r.file, r.off + ou, 12) != before_files[*i]).map(|(i, _)| i).collect();
+                out = json!({"call_counts": counts, "used_by_file": by_file, "changed_files": changed, "idx": idx, "len": len});
                 status = "ok".into();
             }
             "set_log_base" => {
@@ -277,6 +279,65 @@ pub fn run_case<V: VringT<GM> + Clone + Send + Sync + 'static>(case: &Value, tra
                 }
                 out = json!({"wrote": wrote, "gpa": limbs(gpa), "newbits": newbits, "cleared": cleared, "guard_ok": guard_ok});
                 status = "ok".into();
+            }
+            "brfd" => {
+                // SET_BACKEND_REQ_FD, then use the proxy the backend was handed
+                let (a, b) = std::os::unix::net::UnixStream::pair().unwrap();
+                status = rig.peer.request(21, &[], &[a.as_raw_fd()], false).status;
+                drop(a);
+                let be = rig.tb.backends.lock().unwrap().last().cloned();
+                let mut res = json!({"got_backend": be.is_some(), "so_sent": false, "sh_sent": false, "so_need_reply": false, "sh_need_reply": false,
+                    "so_ok": false, "sh_ok": false});
+                if let Some(be) = be {
+                    b.set_read_timeout(Some(std::time::Duration::from_millis(300))).unwrap();
+                    for (kind, key) in [(6u32, "so"), (10u32, "sh")] {
+                        let be2 = be.clone();
+                        let t = std::thread::spawn(move || {
+                            use vhost::vhost_user::VhostUserFrontendReqHandler;
+                            if kind == 6 {
+                                let mut u = [7u8; 16];
+                                u[0] = 1;
+                                be2.shared_object_add(&vhost::vhost_user::message::VhostUserSharedMsg { uuid: uuid::Uuid::from_bytes(u) }).is_ok()
+                            } else {
+                                be2.shmem_unmap(&vhost::vhost_user::message::VhostUserMMap { shmid: 0, padding: [0; 7], fd_offset: 0, shm_offset: 0, len: 4096, flags: 0 }).is_ok()
+                            }
+                        });
+                        // the frontend side of the channel: read one request if any, acknowledge if asked to
+                        let mut hdr = [0u8; 12];
+                        let mut got = 0usize;
+                        let t0 = std::time::Instant::now();
+                        while got < 12 && t0.elapsed() < std::time::Duration::from_millis(300) && !(t.is_finished() && got == 0 && fionread(b.as_raw_fd()) == 0) {
+                            match raw_recv(&b, &mut hdr[got..], libc::MSG_DONTWAIT) {
+                                Ok((n, _)) if n > 0 => got += n,
+                                _ => std::thread::sleep(std::time::Duration::from_micros(100)),
+                            }
+                        }
+                        if got == 12 {
+                            let size = le32(&hdr, 8) as usize;
+                            let mut body = vec![0u8; size];
+                            let mut g = 0;
+                            while g < size {
+                                match raw_recv(&b, &mut body[g..], 0) {
+                                    Ok((n, _)) if n > 0 => g += n,
+                                    _ => break,
+                                }
+                            }
+                            res[format!("{key}_sent")] = json!(le32(&hdr, 0) == kind);
+                            let need = le32(&hdr, 4) & 8 != 0;
+                            res[format!("{key}_need_reply")] = json!(need);
+                            if need {
+                                let mut ack = Vec::new();
+                                ack.extend_from_slice(&kind.to_le_bytes());
+                                ack.extend_from_slice(&5u32.to_le_bytes());
+                                ack.extend_from_slice(&8u32.to_le_bytes());
+                                ack.extend_from_slice(&0u64.to_le_bytes());
+                                let _ = raw_send_all(&b, &ack, &[]);
+                            }
+                        }
+                        res[format!("{key}_ok")] = json!(t.join().unwrap_or(false));
+                    }
+                }
+                out = res;
             }
             "listener" => {
                 let t = step["thread"].as_u64().unwrap_or(0) as usize;
